@@ -43,6 +43,46 @@ namespace jsonschema {
     template <typename Json>
     class schema_validator;
 
+    // Equality of two JSON values as the JSON Schema specifications define it: objects are equal 
+    // regardless of member order (operator== of an order preserving Json compares members in sequence)
+    template <typename Json>
+    bool json_values_equal(const Json& a, const Json& b)
+    {
+        if (a.is_object() && b.is_object())
+        {
+            if (a.size() != b.size())
+            {
+                return false;
+            }
+            for (const auto& member : a.object_range())
+            {
+                auto it = b.find(member.key());
+                if (it == b.object_range().end() || !json_values_equal(member.value(), (*it).value()))
+                {
+                    return false;
+                }
+            }
+            return true;
+        }
+        if (a.is_array() && b.is_array())
+        {
+            if (a.size() != b.size())
+            {
+                return false;
+            }
+            auto jt = b.array_range().begin();
+            for (auto it = a.array_range().begin(); it != a.array_range().end(); ++it, ++jt)
+            {
+                if (!json_values_equal(*it, *jt))
+                {
+                    return false;
+                }
+            }
+            return true;
+        }
+        return a == b;
+    }
+
     template <typename Json>
     class ref
     {
@@ -1087,7 +1127,7 @@ namespace jsonschema {
             {
                 for (auto jt = it+1; jt != a.array_range().end(); ++jt) 
                 {
-                    if (*it == *jt) 
+                    if (json_values_equal(*it, *jt)) 
                     {
                         return false; // contains duplicates 
                     }
@@ -2287,7 +2327,7 @@ namespace jsonschema {
             bool in_range = false;
             for (const auto& item : value_.array_range())
             {
-                if (item == instance) 
+                if (json_values_equal(item, instance)) 
                 {
                     in_range = true;
                     break;
@@ -2338,7 +2378,7 @@ namespace jsonschema {
             error_reporter<Json>& reporter,
             jsoncons::optional<Json>& patch) const final
         {
-            if (value_ != instance)
+            if (!json_values_equal(value_, instance))
             {
                 eval_context<Json> this_context(context, this->keyword());
 
